@@ -2,6 +2,7 @@ package core
 
 import (
 	"go/ast"
+	"go/token"
 	"go/types"
 
 	"golang.org/x/tools/go/cfg"
@@ -337,112 +338,131 @@ func ErrDisposition(info *types.Info, body *ast.BlockStmt, call *ast.CallExpr) (
 	return ErrUnknown, "unsupported statement form"
 }
 
-// errVarChecked: after assignment stmt, is obj tested against nil before reuse?
+var graphCache = map[*ast.BlockStmt]*Graph{}
+
+func graphFor(info *types.Info, body *ast.BlockStmt) *Graph {
+	if g, ok := graphCache[body]; ok {
+		return g
+	}
+	g := NewGraph(info, body)
+	graphCache[body] = g
+	return g
+}
+
+// errVarChecked follows the control flow from the assignment: on every path the first node that
+// mentions obj must test it against nil (or return it) before it is overwritten or forgotten.
 func errVarChecked(info *types.Info, body *ast.BlockStmt, asg *ast.AssignStmt, obj types.Object) (ErrUse, string) {
-	// Case 1: asg is the Init of an if statement whose Cond tests obj.
-	var use ErrUse = ErrUnknown
-	msg := "error variable " + obj.Name() + " not tested against nil after the call"
-	ast.Inspect(body, func(n ast.Node) bool {
-		ifs, ok := n.(*ast.IfStmt)
-		if !ok || use != ErrUnknown {
-			return use == ErrUnknown
+	// the innermost function body containing the assignment
+	for _, n := range PathTo(body, asg) {
+		if fl, ok := n.(*ast.FuncLit); ok {
+			body = fl.Body
 		}
-		if ifs.Init == asg {
-			if u, ok := nilTest(info, ifs, obj); ok {
-				use = u
-			}
-			return false
-		}
-		return true
-	})
-	if use != ErrUnknown {
-		return use, ""
 	}
-	// Case 2: following statements in the same list
-	list, idx := EnclosingStmtList(body, asg)
-	if idx < 0 {
-		return ErrUnknown, msg
+	g := graphFor(info, body)
+	start := g.NodeOf(asg)
+	if start < 0 {
+		return ErrUnknown, "assignment not found in the control-flow graph"
 	}
-	for _, st := range list[idx+1:] {
-		if ifs, ok := st.(*ast.IfStmt); ok && ifs.Init == nil || ok && ifs.Init != nil && !MentionsObj(info, ifs.Init, obj) {
-			if u, ok2 := nilTest(info, ifs, obj); ok2 {
-				return u, ""
-			}
+	worst := ErrChecked
+	why := ""
+	rank := func(u ErrUse) int {
+		switch u {
+		case ErrChecked, ErrReturned:
+			return 0
+		case ErrCheckedSoft:
+			return 1
+		case ErrUnknown:
+			return 2
 		}
-		if rs, ok := st.(*ast.ReturnStmt); ok {
-			if MentionsObj(info, rs, obj) {
-				return ErrReturned, ""
-			}
+		return 3
+	}
+	note := func(u ErrUse, w string) {
+		if rank(u) > rank(worst) {
+			worst, why = u, w
 		}
-		// reassigned before being tested?
-		reassigned := false
-		Walk(st, false, func(x ast.Node) bool {
-			if a, ok := x.(*ast.AssignStmt); ok {
-				for _, l := range a.Lhs {
-					if ObjOf(info, l) == obj {
-						reassigned = true
+	}
+	isNamedResult := false
+	if v, ok := obj.(*types.Var); ok {
+		isNamedResult = isResultVar(info, v)
+	}
+	seen := map[int]bool{}
+	var visit func(n int)
+	visit = func(n int) {
+		if seen[n] {
+			return
+		}
+		seen[n] = true
+		if n == Exit {
+			if !isNamedResult {
+				note(ErrDiscarded, "error variable "+obj.Name()+" is never looked at on some path to the function exit")
+			}
+			return
+		}
+		node := g.Nodes[n]
+		if node != nil && n != start && MentionsObj(info, node, obj) {
+			switch x := node.(type) {
+			case *ast.ReturnStmt:
+				note(ErrReturned, "")
+			case *ast.AssignStmt:
+				reads := false
+				for _, r := range x.Rhs {
+					if MentionsObj(info, r, obj) {
+						reads = true
+					}
+				}
+				if !reads {
+					note(ErrDiscarded, "error variable "+obj.Name()+" is overwritten before it is tested")
+				} else {
+					note(ErrCheckedSoft, "error flows into "+Str(x.Lhs[0]))
+				}
+			case ast.Expr:
+				if len(g.Succ[n]) == 2 {
+					hard := false
+					for _, d := range Conjuncts(x, true) {
+						if b, ok := BinOp(d, token.NEQ); ok && ObjOf(info, b.X) == obj && IsNil(info, b.Y) {
+							// hard if the error branch cannot rejoin the success branch
+							if !g.Reach(g.Succ[n][0], g.Succ[n][1], nil) {
+								hard = true
+							}
+						}
+					}
+					if hard {
+						note(ErrChecked, "")
+					} else {
+						note(ErrCheckedSoft, "tested, but execution continues on the error branch")
+					}
+				} else {
+					note(ErrCheckedSoft, "used in an expression")
+				}
+			default:
+				note(ErrCheckedSoft, "used")
+			}
+			return
+		}
+		for _, s := range g.Succ[n] {
+			visit(s)
+		}
+	}
+	for _, s := range g.Succ[start] {
+		visit(s)
+	}
+	return worst, why
+}
+
+// isResultVar reports whether v is a named result parameter.
+func isResultVar(info *types.Info, v *types.Var) bool {
+	for n, s := range info.Scopes {
+		if ft, ok := n.(*ast.FuncType); ok && ft.Results != nil && s == v.Parent() {
+			for _, f := range ft.Results.List {
+				for _, nm := range f.Names {
+					if info.Defs[nm] == v {
+						return true
 					}
 				}
 			}
-			return true
-		})
-		if reassigned {
-			return ErrDiscarded, "error variable " + obj.Name() + " overwritten before it is tested"
-		}
-		if MentionsObj(info, st, obj) {
-			// used somehow (e.g. errs = append(errs, err), switch on it)
-			return ErrCheckedSoft, "used in " + Str0(st)
 		}
 	}
-	// named result + fallthrough to bare return / end of function?
-	return ErrUnknown, msg
-}
-
-// Str0 renders a statement kind briefly.
-func Str0(s ast.Stmt) string {
-	switch s.(type) {
-	case *ast.IfStmt:
-		return "if"
-	case *ast.SwitchStmt:
-		return "switch"
-	case *ast.AssignStmt:
-		return "assignment"
-	case *ast.ExprStmt:
-		return "call"
-	}
-	return "statement"
-}
-
-// nilTest: does ifs.Cond test obj != nil (possibly among || disjuncts) with a leaving body,
-// or obj == nil with a leaving else / remainder.
-func nilTest(info *types.Info, ifs *ast.IfStmt, obj types.Object) (ErrUse, bool) {
-	for _, d := range Conjuncts(ifs.Cond, true) {
-		for _, c := range Conjuncts(d, false) {
-			b, ok := ast.Unparen(c).(*ast.BinaryExpr)
-			if !ok {
-				// errors.Is(err, ...) counts as a test
-				if call, ok := ast.Unparen(c).(*ast.CallExpr); ok && MentionsObj(info, call, obj) {
-					return ErrCheckedSoft, true
-				}
-				if u, ok := ast.Unparen(c).(*ast.UnaryExpr); ok && MentionsObj(info, u, obj) {
-					return ErrCheckedSoft, true
-				}
-				continue
-			}
-			if (ObjOf(info, b.X) == obj && IsNil(info, b.Y)) || (ObjOf(info, b.Y) == obj && IsNil(info, b.X)) {
-				if b.Op.String() == "!=" {
-					if Leaves(ifs.Body) {
-						return ErrChecked, true
-					}
-					return ErrCheckedSoft, true
-				}
-				if b.Op.String() == "==" {
-					return ErrCheckedSoft, true
-				}
-			}
-		}
-	}
-	return ErrUnknown, false
+	return false
 }
 
 // Leaves reports whether a block always ends in return / break / continue / goto / panic.
